@@ -29,10 +29,11 @@ API (everything else in this file is private):
         >=1 success; failure: every attempted upload failed (non-empty).  Foreign events never count.
 
   a scripted Tor behind the *real* TorControlProtocol
-    tor = OnionTor(add_onion=None, setconf=None, version="0.4.8.10")
+    tor = OnionTor(add_onion=None, setconf=None, version="0.4.8.10", conf=None)
         add_onion / setconf: None = hold the command (answer later with tor.reply(...)), or a
         callable(line) -> reply dict / None.  Everything else (bootstrap, TorConfig queries,
-        SETEVENTS, DEL_ONION) is answered at once.
+        SETEVENTS, DEL_ONION) is answered at once.  conf = {name: (type, value|None)} adds options
+        to config/names + GETCONF (what a bootstrapped TorConfig then knows about this Tor).
     tor.pipe / tor.proto        vlib.harness.ControlPipe and its TorControlProtocol
     tor.config()                a real txtorcon.TorConfig.from_protocol(tor.proto) (cached)
     tor.add_onion_lines / tor.del_onion_lines / tor.setconf_lines / tor.setevents_lines
@@ -316,7 +317,11 @@ class OnionTor(object):
     """A real TorControlProtocol (bootstrapped) talking to a scripted control port that knows
     ADD_ONION / DEL_ONION / SETCONF / SETEVENTS and the queries TorConfig.from_protocol makes."""
 
-    def __init__(self, add_onion=None, setconf=None, version="0.4.8.10"):
+    def __init__(self, add_onion=None, setconf=None, version="0.4.8.10", conf=None):
+        # conf: {option name: (config/names type, GETCONF value | None=unset)} - further options this
+        # Tor knows (e.g. {"HiddenServiceNonAnonymousMode": ("Boolean", "0")}), so that what a
+        # bootstrapped TorConfig knows about Tor's configuration can vary
+        self.conf = dict(conf or {})
         self._add_onion = add_onion
         self._setconf = setconf
         self.add_onion_lines = []
@@ -327,7 +332,8 @@ class OnionTor(object):
         self._config = None
         self.pipe, self.server = bootstrapped_pipe(self._handler, version=version)
         self.proto = self.pipe.proto
-        self.server.info.update({"config/names": list(CONFIG_NAMES), "config/defaults": [],
+        names = sorted(list(CONFIG_NAMES) + ["%s %s" % (k, t) for k, (t, v) in self.conf.items()])
+        self.server.info.update({"config/names": names, "config/defaults": [],
                                  "onions/current": "", "onions/detached": ""})
 
     # -- server side
@@ -348,7 +354,12 @@ class OnionTor(object):
             return self._setconf(line) if self._setconf else None
         if word == "GETCONF":
             keys = line.split(" ")[1:]
-            return wire.mids(250, keys[:-1], final=keys[-1])     # every option unset
+            lower = dict((k.lower(), (k, v)) for k, (t, v) in self.conf.items())
+            texts = []
+            for k in keys:
+                name, val = lower.get(k.lower(), (k, None))
+                texts.append(name if val is None else "%s=%s" % (name, val))   # "250 Name" = unset
+            return wire.mids(250, texts[:-1], final=texts[-1])
         return NotImplemented
 
     def _write_hs_files(self, line):
